@@ -122,6 +122,11 @@ pub fn dispatch(op: &str, a: &[&str]) -> Option<Ans> {
                         ia = "mismatch session into_parts() != (rx, tx)".to_string();
                     }
                 }
+                let ds = if op == "kx_client" { dryoc::kx::Session::new_client_with_defaults(&kp, &other) } else { dryoc::kx::Session::new_server_with_defaults(&kp, &other) };
+                match ds {
+                    Ok(v) => if v.rx_as_slice() != rx || v.tx_as_slice() != tx { ia = "mismatch *_with_defaults session".to_string(); },
+                    Err(_) => ia = "mismatch *_with_defaults session result".to_string(),
+                }
                 let vs = if op == "kx_client" { dryoc::kx::Session::<Vec<u8>>::new_client(&kp, &other) } else { dryoc::kx::Session::<Vec<u8>>::new_server(&kp, &other) };
                 match vs {
                     Ok(v) => { let (a, b2) = v.into_parts(); if a != rx || b2 != tx { ia = "mismatch Vec session into_parts()".to_string(); } }
@@ -294,6 +299,13 @@ pub fn dispatch(op: &str, a: &[&str]) -> Option<Ans> {
             let mut out = vec![0xA5u8; m.len()];
             let r2 = crypto_sign_open(&mut out, &sm, &pk);
             let r3 = dryoc::sign::VecSignedMessage::from_bytes(&sm).and_then(|s| s.verify(&pk));
+            // the same object assembled from its parts, and taken apart again
+            let sp = dryoc::sign::VecSignedMessage::from_parts(dryoc::sign::Signature::from(sig), m.clone());
+            if sp.to_vec() != sm { return Some(("mismatch SignedMessage::from_parts layout".into(), "n/a".into())); }
+            let r4 = sp.verify(&pk);
+            let (ps, pm) = sp.into_parts();
+            if ps.as_slice() != sig || pm != *m { return Some(("mismatch SignedMessage::into_parts".into(), "n/a".into())); }
+            if r4.is_ok() != r3.is_ok() { return Some(("mismatch from_parts verify".into(), "n/a".into())); }
             let sr = unsafe { so::crypto_sign_verify_detached(sig.as_ptr(), m.as_ptr(), m.len() as u64, pk.as_ptr()) };
             let ia = if r.is_ok() != r2.is_ok() || r.is_ok() != r3.is_ok() {
                 "mismatch verify forms".to_string()
